@@ -51,9 +51,10 @@ const (
 	kStackOverflow
 	kCancelled
 	kDeadline
+	kStaleCall // Call of a function that belongs to code an intervening RunCode has replaced
 )
 
-var kindNames = []string{"normal", "runtime-error", "host-panic", "frame-overflow", "stack-overflow", "cancelled", "deadline"}
+var kindNames = []string{"normal", "runtime-error", "host-panic", "frame-overflow", "stack-overflow", "cancelled", "deadline", "stale-function-call"}
 
 type invocation struct {
 	API        string // "RunCode" | "Call"
@@ -63,6 +64,7 @@ type invocation struct {
 	Args       []int
 	IsLib      bool // RunCode of the library (state-carrying)
 	FailImport bool // the module imported by this call fails in its body
+	Background bool // runs under context.Background(), which can never be cancelled
 	Stateful   bool // a Call that changes globals and must be replayed on the model
 	OwnDelta   int  // for cancelled/deadline: steps after start at which the fault lands
 	// stale cancels: earlier invocation index -> delta steps after this
@@ -101,6 +103,7 @@ func genHistory(g *sim.Stream, f *sim.Stream) []*invocation {
 	n := g.Range(1, 6)
 	var hist []*invocation
 	libLive := false
+	libSeen := false
 	for k := 0; k < n; k++ {
 		iv := &invocation{Stale: map[int]int{}}
 		kind := invKind(0)
@@ -124,6 +127,15 @@ func genHistory(g *sim.Stream, f *sim.Stream) []*invocation {
 		}
 		iv.Kind = kind
 		useCall := libLive && g.Chance(3, 5)
+		if libSeen && !libLive && g.Chance(1, 4) {
+			// questionable but possible usage: the host kept a function of code
+			// that a later RunCode replaced. Whatever it returns (today: a
+			// recovered nil-pointer panic), the invocations after it must be
+			// unaffected.
+			iv.API, iv.Kind, iv.Fn, iv.Args = "Call", kStaleCall, "add", []int{1, 2}
+			hist = append(hist, iv)
+			continue
+		}
 		if useCall {
 			iv.API = "Call"
 			switch kind {
@@ -210,6 +222,12 @@ func genHistory(g *sim.Stream, f *sim.Stream) []*invocation {
 		hist = append(hist, iv)
 		if iv.API == "RunCode" {
 			libLive = iv.IsLib && iv.Kind == kNormal
+			if libLive {
+				libSeen = true
+			}
+		}
+		if iv.Kind != kCancelled && iv.Kind != kDeadline && g.Chance(1, 4) {
+			iv.Background = true
 		}
 	}
 	return hist
@@ -369,6 +387,8 @@ func runC07(rc *fw.RunCtx) {
 		for k, iv := range hist {
 			if iv.Kind == kCancelled || iv.Kind == kDeadline {
 				expected[k] = invResult{Err: "<context error>"}
+			} else if iv.Kind == kStaleCall {
+				expected[k] = invResult{Err: "<not compared>"}
 			} else {
 				m, err := vm.NewEmpty()
 				if err != nil {
@@ -412,12 +432,15 @@ func runC07(rc *fw.RunCtx) {
 	staleDuring := 0
 	cur := -1
 	var probeErr string
+	var staleFn *object.Function
 	finished := false
 	s.Go("main", "main", func() {
 		for k, iv := range hist {
 			cur = k
 			if iv.Kind == kDeadline {
 				ctxs[k], cancels[k] = context.WithTimeout(context.Background(), 50*time.Millisecond)
+			} else if iv.Background {
+				ctxs[k], cancels[k] = context.Background(), func() {}
 			} else {
 				ctxs[k], cancels[k] = context.WithCancel(context.Background())
 			}
@@ -450,7 +473,31 @@ func runC07(rc *fw.RunCtx) {
 					s.SetStrategy(sim.Fair{})
 				})
 			}
-			got[k] = runInv(ctxs[k], machine, cfg, &failImport, iv, codes[k])
+			if iv.Kind == kStaleCall {
+				got[k] = invResult{Val: "<no stale function kept>"}
+				if staleFn != nil {
+					func() {
+						defer func() {
+							if r := recover(); r != nil {
+								got[k] = invResult{Err: fmt.Sprintf("PANIC-ESCAPED: %v", r)}
+							}
+						}()
+						v, err := machine.Call(ctxs[k], staleFn, []object.Object{object.NewInt(1), object.NewInt(2)})
+						if err != nil {
+							got[k] = invResult{Err: err.Error(), Raw: err}
+						} else {
+							got[k] = invResult{Val: inspectOrNil(v)}
+						}
+					}()
+				}
+			} else {
+				got[k] = runInv(ctxs[k], machine, cfg, &failImport, iv, codes[k])
+			}
+			if iv.API == "RunCode" && iv.IsLib && got[k].Err == "" {
+				if fnObj, err := machine.Get("add"); err == nil {
+					staleFn, _ = fnObj.(*object.Function)
+				}
+			}
 			done[k] = true
 			if iv.Kind == kCancelled || iv.Kind == kDeadline {
 				s.SetStrategy(strat)
@@ -537,6 +584,9 @@ func runC07(rc *fw.RunCtx) {
 		pred := "first"
 		if k > 0 {
 			pred = "after-" + kindNames[hist[k-1].Kind]
+		}
+		if iv.Kind == kStaleCall {
+			continue // only "it returned" and "later invocations are unaffected" matter
 		}
 		if iv.Kind == kCancelled || iv.Kind == kDeadline {
 			if gk.Err == "" {
